@@ -213,6 +213,12 @@ class Vec(object):
     def norm(self): return sum(abs(a) for a in self.xs)
 
     @property
+    def flaky(self):
+        """a getter with an effect that then fails the way a missing attribute does"""
+        self.calls += 1
+        raise AttributeError("flaky is not available")
+
+    @property
     def top(self):
         if not self.xs:
             raise IndexError("empty Vec")
@@ -417,7 +423,7 @@ def snap(o, env, memo=None, depth=0):
                 disk = None
             return ("file", type(o).__name__, st, disk)
         if isinstance(o, (Vec, CM, Seq, Plain)):
-            return (t.__name__,) + tuple((k, rec(v)) for k, v in sorted(vars(o).items()))
+            return (t.__name__,) + tuple(sorted(((rec(k), rec(v)) for k, v in vars(o).items()), key=repr))
         if isinstance(o, BaseException):
             return ("exception", t.__name__, rec(o.args))
         if isinstance(o, type):
@@ -519,6 +525,8 @@ FUNCS = {"list": list, "tuple": tuple, "sorted": sorted, "sum": sum, "min": min,
          "enumerate": lambda x: list(enumerate(x)), "dict": dict, "format": lambda x: format(x, ""), "zip": lambda x: list(zip(x, x)),
          "frozenset": frozenset, "next_default": lambda x: next(x, "dflt"), "unpack2": lambda x: (lambda a, b: (b, a))(*x),
          "star": lambda x: (lambda *a: len(a))(*x), "join": lambda x: ",".join(x), "bjoin": lambda x: b"".join(x)}
+ITERATING_FUNCS = ("list", "tuple", "sorted", "sum", "min", "max", "any", "all", "set", "frozenset", "enumerate", "zip", "unpack2", "star", "join", "bjoin")
+ELEMENT_FUNCS = ("sum", "min", "max", "any", "all", "int", "float", "index", "format", "next_default", "star", "join", "bjoin", "bytes")   # the rest build a container on the caller's side
 # which special method of the operand's type the interpreter uses for a primitive operation (Python data model)
 UNARY_SPECIAL = {"len": ["__len__"], "iter": ["__iter__"], "next": ["__next__"], "neg": ["__neg__"], "pos": ["__pos__"], "abs": ["__abs__"],
                  "invert": ["__invert__"], "bool": ["__bool__", "__len__"]}
@@ -569,7 +577,38 @@ def needs(op, twin_obj):
         return []
     if k == "buffiter":
         return [("get", "__iter__")] if has_special(T, "__iter__") else []
+    if k == "func":
+        f = op[2]
+        if f in ITERATING_FUNCS:
+            return [("get", "__iter__")] if has_special(T, "__iter__") else ([("get", "__getitem__")] if has_special(T, "__getitem__") else [])
+        if f == "reversed":
+            if has_special(T, "__reversed__"):
+                return [("get", "__reversed__")]
+            return [("get", "__len__"), ("get", "__getitem__")] if has_special(T, "__len__") and has_special(T, "__getitem__") else []
+        if f == "dict":
+            if hasattr(T, "keys"):
+                return [("get", "keys"), ("get", "__getitem__")]
+            return [("get", "__iter__")] if has_special(T, "__iter__") else ([("get", "__getitem__")] if has_special(T, "__getitem__") else [])
+        if f in ("int", "float", "index", "format"):
+            d = "__%s__" % f
+            return [("get", d)] if has_special(T, d) else (None if f == "int" else [])
+        if f == "next_default":
+            return [("get", "__next__")] if has_special(T, "__next__") else []
     return None
+
+
+def slot_refs(op):
+    out = [op[1]]
+
+    def go(x):
+        if isinstance(x, dict):
+            if "slot" in x:
+                out.append(x["slot"])
+        elif isinstance(x, list):
+            for y in x:
+                go(y)
+    go(op[2:])
+    return out
 
 
 def permitted(cfg, nd):
@@ -624,7 +663,7 @@ def perform(side, op, proxy):
         return y, "remote"
     if k == "isinstance": return isinstance(x, CLASSES[op[2]]), "remote"
     if k == "classof": return x.__class__, "local"
-    if k == "func": return FUNCS[op[2]](x), "local"
+    if k == "func": return FUNCS[op[2]](x), ("remote" if op[2] in ELEMENT_FUNCS else "local")
     if k == "buffiter":
         if proxy:
             return list(buffiter(x, op[2], op[4], op[3])), "local"
@@ -635,8 +674,8 @@ def perform(side, op, proxy):
 def outcome(side, op, proxy):
     try:
         v, how = perform(side, op, proxy)
-    except RecursionError:
-        raise
+    except RecursionError as e:      # depth of the interpreter stack is not part of the property (a remote hop costs frames)
+        return ("exc", "RecursionError"), None, None, e
     except BaseException as e:       # noqa: the class of whatever the operation raises is the observation
         if isinstance(e, (KeyboardInterrupt, SystemExit, MemoryError)):
             raise
@@ -781,7 +820,7 @@ def run_case(ctx, case, collect=None):
             ctx.tie_broken("harness:initial-state", "%s vs %s" % (short(st_p), short(st_t)))
             return sigs
         for step, op in enumerate(ops):
-            if op[1] >= len(w.T.slots):
+            if max(slot_refs(op)) >= len(w.T.slots):
                 continue
             twin_obj = w.T.slots[op[1]]
             nd = needs(op, twin_obj)
@@ -800,7 +839,7 @@ def run_case(ctx, case, collect=None):
                                 "twin_type": type(twin_obj), "result": rp, "pred": pred, "back": len(w.tap.back)})
             ctx.count("op:" + op[0])
             where = "step %d %s on %s under %s" % (step, op[0], type(twin_obj).__name__, cfg)
-            refused = cfg != "classic" and (w.tap.refusals > 0 if pred is None else (ep is not None and is_refusal(ep)))
+            refused = cfg != "classic" and ep is not None and is_refusal(ep)
             if pred is False or (pred is None and refused):
                 ctx.count("not-permitted:" + cfg)
                 if pred is False and not (ep is not None and isinstance(ep, AttributeError)):
@@ -812,13 +851,16 @@ def run_case(ctx, case, collect=None):
                     report("permitted-op-refused:%s:%s" % (op[0], cfg), step, short(rp), "performed", where + ": permitted operation refused: " + str(ep).split("\n")[0])
                     return sigs
                 rt, vt, how_t, et = outcome(w.T, op, False)
+                if ("exc", "RecursionError") in (rp, rt):
+                    ctx.count("recursion-limit-reached")
+                    return sigs
                 ctx.count("outcome:" + (rt[0] if rt[0] == "ok" else rt[1]))
                 same = rp == rt
                 if not same and op[0] == "hash" and rp[0] == rt[0] == "ok" and hash_is_address_based(twin_obj) \
                         and rp[1][0] == rt[1][0] == "val" and rp[1][1][0] == rt[1][1][0] == "int":
                     same = True
                 if not same:
-                    report(classify(op, rp, rt, twin_obj), step, short(rp), short(rt), where + ": proxy gives %s, target gives %s" % (short(rp, 120), short(rt, 120)))
+                    report(classify(op, rp, rt, twin_obj, methods), step, short(rp), short(rt), where + ": proxy gives %s, target gives %s" % (short(rp, 120), short(rt, 120)))
                 elif rt[0] == "ok" and how in ("remote", "rebind"):
                     if how == "rebind" and rt[1][0] == "ref":
                         w.P.slots[op[1]], w.T.slots[op[1]] = vp, vt
@@ -828,7 +870,8 @@ def run_case(ctx, case, collect=None):
             st_p, st_t = w.state(w.P), w.state(w.T)
             if st_p != st_t:
                 bad = [i for i, (a, b) in enumerate(zip(st_p, st_t)) if a != b]
-                report("state:" + classify(op, ("state",), ("state",), twin_obj), step, short([st_p[i] for i in bad]), short([st_t[i] for i in bad]),
+                sg = classify(op, ("state",), ("state",), twin_obj, methods)
+                report(sg if sg in FAMILIES else "state:" + sg, step, short([st_p[i] for i in bad]), short([st_t[i] for i in bad]),
                        "after " + where + " the target's state differs from the twin's (result was %s)" % short(rp, 80))
                 return sigs
         return sigs
@@ -853,18 +896,51 @@ def type_tag(twin_obj):
     return "callable" if callable(twin_obj) else "other"
 
 
-def classify(op, rp, rt, twin_obj):
+def beyond_ssize(v):
+    return type(v) is int and not (-2**63 <= v < 2**63)
+
+
+FAMILIES = {
+    "isinstance:abstract-base-class":
+        "isinstance() against an abstract base class inspects type(proxy) and proxy.__class__ structurally (BaseNetref.__hash__, methods of "
+        "`type` on cached built-in classes, a class the caller cannot import arrives as a proxy that is not a type)",
+    "item-index-beyond-ssize_t:slot-wrapper-raises-OverflowError":
+        "x[i] with |i| >= 2**63 on a sequence implemented with sq_item only (deque): the handler calls x.__getitem__(i), whose slot wrapper "
+        "raises OverflowError where the subscript operator raises IndexError",
+    "ctxexit:exception-class-not-delivered":
+        "the target's __exit__ is told about a TypeError instead of the exception raised in the with block",
+    "getattr:proxy-local-name":
+        "reading a name in netref.LOCAL_ATTRS gives the proxy's own attribute, not the target's",
+    "netref-class:methods-the-target-type-lacks":
+        "the proxy's class defines a special method the target's type does not (BaseNetref.__hash__ ..., methods of `type` on the cached "
+        "built-in classes), so protocol queries and operator fallbacks answer differently",
+    "buffer-protocol:target-memory-not-reachable":
+        "an operation that reads the target through the C buffer protocol fails on the proxy",
+    "buffiter:getitem-only-iterable":
+        "buffiter() of an object iterable only through __getitem__ fails (iter() of the proxy is not a proxy)",
+}
+
+
+def classify(op, rp, rt, twin_obj, methods=()):
     """stable name of the shape of a difference"""
     k = op[0]
-    kind = lambda r: r[0]
-    # families that have been triaged (see the report of the check's author); one signature each
-    if k == "with" and op[2] and has_special(type(twin_obj), "__exit__") and not isinstance(twin_obj, io.IOBase):
+    T = type(twin_obj)
+    methods = methods or ()
+    extra_methods = lambda names: any(d in methods and not has_special(T, d) for d in names)
+    # shapes that have been triaged (FAMILIES); one signature each
+    if k == "with" and op[2] and has_special(T, "__exit__") and not isinstance(twin_obj, io.IOBase):
         return "ctxexit:exception-class-not-delivered"
-    if k in ("getattr", "callm") and op[2] in netref.LOCAL_ATTRS:
+    if k in ("getattr", "callm", "setattr", "delattr") and op[2] in netref.LOCAL_ATTRS:
         return "getattr:proxy-local-name"
-    if k == "isinstance" and op[2] in ABCS:
-        return "isinstance:abc-structural"
-    if k == "buffiter" and not has_special(type(twin_obj), "__iter__") and has_special(type(twin_obj), "__getitem__"):
+    if k == "isinstance" and type(CLASSES[op[2]]) is not type:
+        return "isinstance:abstract-base-class"
+    if k in ("getitem", "setitem", "delitem") and "imm" in op[2] and beyond_ssize(mk_value(op[2], {})) and rp[0] == rt[0] == "exc":
+        return "item-index-beyond-ssize_t:slot-wrapper-raises-OverflowError"
+    if k in ("binop", "rbinop", "ibinop") and extra_methods(["__%s__" % op[2], "__r%s__" % op[2], "__%s__" % op[2][1:], "__i%s__" % op[2]]):
+        return "netref-class:methods-the-target-type-lacks"
+    if T is bytearray and ((k == "rbinop" and "imm" in op[3]) or (k == "func" and op[2] in ("bytes", "bjoin", "int", "float"))):
+        return "buffer-protocol:target-memory-not-reachable"
+    if k == "buffiter" and not has_special(T, "__iter__") and has_special(T, "__getitem__"):
         return "buffiter:getitem-only-iterable"
     extra = ""
     if k in ("getattr", "setattr", "delattr", "callm"):
@@ -873,7 +949,7 @@ def classify(op, rp, rt, twin_obj):
         extra = ":" + op[2]
     elif k == "with":
         extra = ":body-raises" if op[2] else ":body-ok"
-    return "%s%s:%s:proxy-%s-target-%s" % (k, extra, type_tag(twin_obj), kind(rp), kind(rt))
+    return "%s%s:%s:proxy-%s-target-%s" % (k, extra, type_tag(twin_obj), rp[0], rt[0])
 
 
 # ------------------------------------------------------------------------------------------------ generation
@@ -892,11 +968,12 @@ def has_nan(v):
     return False
 
 
-def gen_imm(r, depth=1, hashable=False):
-    """an immutable value; with hashable=True one whose hash does not depend on its address (no NaN anywhere inside),
-    because iteration order of sets/dicts would otherwise differ between two equal-by-construction objects"""
+def gen_imm(r, depth=1, hashable=False, nan_ok=False):
+    """an immutable value.  NaN (whose hash is its address since 3.10, so that two equal-by-construction sets/dicts holding one
+    iterate in different orders) appears only where the operation does not store the operand: comparisons, membership tests,
+    arithmetic, count/index"""
     v = _gen_imm(r, depth, hashable)
-    return 0 if hashable and has_nan(v) else v
+    return 0 if not nan_ok and has_nan(v) else v
 
 
 def _gen_imm(r, depth, hashable):
@@ -910,7 +987,7 @@ def _gen_imm(r, depth, hashable):
     if c < 0.64:
         return r.choice([None, True, False, NotImplemented, Ellipsis])
     if c < 0.72:
-        return r.choice([0.0, 1.5, -2.25, float("inf"), float("nan"), 1e300, -0.0])
+        return r.choice([0.0, 1.5, -2.25, float("inf"), float("nan"), float("nan"), 1e300, -0.0])
     if c < 0.75:
         return complex(r.choice([0.0, 1.0, -1.5]), r.choice([0.0, 2.0]))
     if c < 0.80:
@@ -1023,15 +1100,15 @@ def gen_op(r, side, i):
         if k in ("repr", "str", "hash", "dir", "bool", "len", "iter", "classof", "next"):
             return [k, i]
         if k == "isinstance": return ["isinstance", i, r.choice(ANY_CLASS)]
-        if k == "cmp": return ["cmp", i, r.choice(list(CMPS)), I(gen_imm(r))]
+        if k == "cmp": return ["cmp", i, r.choice(list(CMPS)), I(gen_imm(r, nan_ok=True))]
         if k == "cmpslot": return ["cmp", i, r.choice(list(CMPS)), {"slot": r.randrange(len(side.slots))}]
         if k == "missing": return ["getattr", i, r.choice(MISSING)]
         if k == "localname": return ["getattr", i, r.choice(LOCAL_NAMES)]
-        if k == "contains": return ["contains", i, I(gen_imm(r))]
+        if k == "contains": return ["contains", i, I(gen_imm(r, nan_ok=True))]
         if k == "func": return ["func", i, r.choice(list(FUNCS))]
         if k == "with": return ["with", i, r.choice([None, "ValueError"])]
         if k == "call": return ["call", i, [I(gen_imm(r)) for _ in range(r.choice([0, 1, 2]))], []]
-        if k == "binop": return [r.choice(["binop", "rbinop"]), i, r.choice(list(BINOPS)), I(gen_imm(r))]
+        if k == "binop": return [r.choice(["binop", "rbinop"]), i, r.choice(list(BINOPS)), I(gen_imm(r, nan_ok=True))]
         if k == "unop": return ["unop", i, r.choice(list(UNOPS))]
         if k == "setmissing": return ["setattr", i, r.choice(["fresh", "_fresh", "tag"]), I(gen_imm(r))]
         if k == "delmissing": return ["delattr", i, r.choice(MISSING + ["tag", "fresh"])]
@@ -1043,7 +1120,7 @@ def gen_op(r, side, i):
         return r.choice([
             lambda: M("append", v()), lambda: M("append", {"slot": r.randrange(len(side.slots))}), lambda: M("extend", tuple(v() for _ in range(r.choice([0, 1, 3])))),
             lambda: M("insert", idx_for(r, n), v()), lambda: M("pop"), lambda: M("pop", idx_for(r, n)), lambda: M("remove", member(r, o, v)),
-            lambda: M("index", v()), lambda: M("count", v()), lambda: M("sort"), lambda: M("sort", reverse=True), lambda: M("reverse"), lambda: M("clear"), lambda: M("copy"),
+            lambda: M("index", gen_imm(r, nan_ok=True)), lambda: M("count", gen_imm(r, nan_ok=True)), lambda: M("sort"), lambda: M("sort", reverse=True), lambda: M("reverse"), lambda: M("clear"), lambda: M("copy"),
             lambda: M("__len__"), lambda: M("extend", 5), lambda: M("append"),
             lambda: ["getitem", i, I(idx_for(r, n))], lambda: ["getitem", i, I(idx_for(r, n))], lambda: ["getitem", i, I(slice_for(r, n))],
             lambda: ["setitem", i, I(idx_for(r, n)), I(v())], lambda: ["setitem", i, I(slice_for(r, n)), I(tuple(v() for _ in range(r.choice([0, 1, 2]))))],
@@ -1089,7 +1166,7 @@ def gen_op(r, side, i):
             lambda: ["setitem", i, I(slice_for(r, n)), I(r.choice(BLOBS))], lambda: ["delitem", i, I(idx_for(r, n))], lambda: ["contains", i, I(r.choice([97, 0, 256, b"a", "a"]))],
             lambda: ["ibinop", i, "iadd", I(r.choice(BLOBS))], lambda: ["binop", i, "add", I(r.choice(BLOBS))], lambda: ["rbinop", i, "add", I(r.choice(BLOBS))],
             lambda: ["binop", i, "mul", I(r.choice([0, 2]))], lambda: ["binop", i, "mod", I((1,))], lambda: ["cmp", i, r.choice(list(CMPS)), I(r.choice(BLOBS))],
-            lambda: ["func", i, r.choice(["bytes", "list", "sum", "max", "reversed"])], lambda: ["len", i], lambda: ["iter", i],
+            lambda: ["func", i, r.choice(["bytes", "list", "sum", "max", "reversed", "tuple"])], lambda: ["len", i], lambda: ["iter", i],
             lambda: ["buffiter", i, r.choice([1, 2, 10]), r.choice([1, 2]), r.choice([1, 3, 1000])],
         ])()
     if T is collections.deque:
@@ -1128,7 +1205,7 @@ def gen_op(r, side, i):
             lambda: ["cmp", i, r.choice(list(CMPS)), I(num())], lambda: ["call", i, [I(v()) for _ in range(r.choice([0, 1, 3]))], [[kw, I(v())] for kw in r.sample(["a", "b", "zz"], r.choice([0, 1, 2]))]],
             lambda: M("scale", r.choice([0, 2, -1, 1.5, "x"])), lambda: M("scale", 2, offset=r.choice([1, -1])), lambda: M("scale", 2, bogus=1), lambda: M("items_ref"), lambda: M("items_val"),
             lambda: M("pair"), lambda: M("clone"), lambda: M("boom", r.choice(list(EXC))), lambda: M("boom", r.choice(list(EXC)), True), lambda: M("_hidden"), lambda: M("norm"),
-            lambda: ["getattr", i, r.choice(["norm", "top", "xs", "tag", "_priv", "calls", "scale", "fresh"])], lambda: ["setattr", i, "top", I(r.choice([1, 2.5, "x", None]))],
+            lambda: ["getattr", i, r.choice(["norm", "top", "xs", "tag", "_priv", "calls", "scale", "fresh", "flaky"])], lambda: ["setattr", i, "top", I(r.choice([1, 2.5, "x", None]))],
             lambda: ["setattr", i, r.choice(["tag", "fresh", "_priv", "norm", "xs"]), I(v())], lambda: ["delattr", i, r.choice(["top", "tag", "norm", "fresh", "_priv"])],
             lambda: ["getitem", i, I(idx_for(r, n))], lambda: ["getitem", i, I(slice_for(r, n))], lambda: ["setitem", i, I(idx_for(r, n)), I(num())], lambda: ["delitem", i, I(idx_for(r, n))],
             lambda: ["contains", i, I(num())], lambda: ["func", i, r.choice(["int", "float", "index", "list", "sum", "sorted", "tuple", "format", "max", "reversed"])],
@@ -1197,6 +1274,9 @@ def gen_case(r, cfg, nops=25, kind=None):
             if nd is not None and not permitted(cfg, nd):
                 continue
             res, val, how, exc = outcome(side, op, False)
+            if res == ("exc", "RecursionError"):
+                ops.pop()
+                continue
             if res[0] == "ok" and how in ("remote", "rebind"):
                 if how == "rebind" and res[1][0] == "ref":
                     side.slots[op[1]] = val
